@@ -344,6 +344,21 @@ def run_history(sids0, names0, ops, tmpdir):
                 problems.append((k, "after %s: array %d has %d rows for %d structures" % (op[0], n, len(rows), len(sids)), cur_len))
             if any(r == -2 for r in rows):
                 problems.append((k, "after %s: array %d row(s) %s hold another structure's value" % (op[0], n, [i for i, r in enumerate(rows) if r == -2]), cur_len))
+        # the order an indexing operation defines, by Python's own list semantics (independent of the Coq model)
+        want = None
+        try:
+            if op[0] == "int" and -len(cur_sids) <= op[1] < len(cur_sids):
+                want = [cur_sids[op[1]]]
+            elif op[0] == "slice":
+                want = cur_sids[slice(op[1], op[2], op[3])]
+            elif op[0] == "list" and all(-len(cur_sids) <= i < len(cur_sids) for i in op[1]):
+                want = [cur_sids[i] for i in op[1]]
+            elif op[0] == "mask" and len(op[1]) == len(cur_sids):
+                want = [s_ for s_, b_ in zip(cur_sids, op[1]) if b_]
+        except Exception:
+            want = None
+        if want is not None and list(sids) != list(want):
+            problems.append((k, "indexing %s of a collection holding structures %s returns structures %s, expected %s" % (list(op), cur_sids, list(sids), want), cur_len))
         if ap.extra and ap.extra[0] == "chunks":
             allsids = [s for o in ap.extra[1] for s in o[0]]
             if allsids != cur_sids:
